@@ -338,6 +338,55 @@ theorem C08_partial_call (F : FOps) (pt : GoTy) (o : Obj) (hw : wfW o = true)
   · have hc' : convOK pt = false := by simpa using hc
     simp [callArg, hc', specWrite]
 
+/-! ### every argument position -/
+
+/-- **Full statement, argument list.**  For every parameter list and every argument list: the
+    call never panics, and when the method is invoked it receives exactly the arguments the
+    script passed — argument `i` in parameter `i`, none missing, none dropped. -/
+def C08_full_call_args : Prop :=
+  ∀ (F : FOps) (pts : Fields) (os : Objs), wfWs os = true →
+    specArgs F pts os (callArgs F pts os) = true
+
+/-- `h.TakeInt(1, 2)`: the call is made with `1`, the second argument is silently dropped -/
+theorem C08_counterexample_surplus_argument :
+    callArgs F0 (.cons (.int .w0) .nil) (.cons (.int 1) (.cons (.int 2) .nil))
+      = .ok (.cons (.int 1) .nil) := by decide
+
+theorem C08_counterexample_call_args : ¬ C08_full_call_args := by
+  intro h
+  have := h F0 (.cons (.int .w0) .nil) (.cons (.int 1) (.cons (.int 2) .nil)) rfl
+  revert this
+  decide
+
+/-- too few arguments are rejected, also after a nil argument (`rec.Record(nil)` for a method
+    with three parameters) -/
+theorem C08_too_few_rejected (F : FOps) :
+    callArgs F (.cons .iface (.cons .str (.cons (.int .w0) .nil))) (.cons .nil .nil) = .error := rfl
+
+/-- **Partial statement (every argument position).**  For parameter lists and argument lists of
+    ANY length: under `callNGuards … = []` (no surplus argument, and in every position the guards
+    of `C08_partial_call`) `Proxy.call` never panics, too few arguments are rejected, and when the
+    method is invoked each parameter holds a Go value representing the argument the script passed
+    in that same position. -/
+theorem C08_partial_call_args (F : FOps) (pts : Fields) (os : Objs) (hw : wfWs os = true)
+    (hg : callNGuards F pts os = []) : specArgs F pts os (callArgs F pts os) = true := by
+  unfold callArgs
+  rcases convArgs_good F (C08_partial_call F) pts os hw hg with he | ⟨xs, hx, hr⟩
+  · simp [he, Outcome.bind, specArgs]
+  · simp only [hx, Outcome.bind, toList_map_length]
+    rcases hr with hl | hr
+    · simp [hl, specArgs]
+    · have := reprArgs_length F pts xs os hr
+      simp [this, allSome_map_some, specArgs, hr]
+
+example : callNGuards F0 (.cons (.ptr (.int .w0)) (.cons .str (.cons (.int .w0) .nil)))
+    (.cons .nil (.cons (.str [97]) (.cons (.int 3) .nil))) = [] := by decide
+example : callArgs F0 (.cons (.ptr (.int .w0)) (.cons .str (.cons (.int .w0) .nil)))
+    (.cons .nil (.cons (.str [97]) (.cons (.int 3) .nil)))
+    = .ok (.cons .nilv (.cons (.str [97]) (.cons (.int 3) .nil))) := by decide
+example : callNGuards F0 (.cons (.int .w0) .nil) (.cons (.int 1) (.cons (.int 2) .nil)) ≠ [] := by decide
+
+
 /-! ### Non-vacuity for the write direction -/
 
 example : writeAllGuards F0 .get (.slice (.ptr (.int .w16)))
@@ -346,5 +395,73 @@ example : setGuards F0 (.mapStr .str) (.map [[97]] (.cons (.str [120]) .nil)) = 
 example : callGuards F0 (.ptr (.int .w0)) .nil = [] := by decide
 example : callGuards F0 (.int .w0) .nil ≠ [] := by decide
 example : setGuards F0 (.int .w8) (.int 300) ≠ [] := by decide
+
+/-! ## 3. A reused VM: globals supplied again -/
+
+/-- **A run on a reused VM sees, under every name, the value supplied last.**  For every history
+    of `WithGlobal(s)` supplies on one VM (any length, any names, any types and values; latest
+    first) and every name: if the run reads an object at all, that object is the conversion of the
+    value supplied LAST under that name — never of an earlier one, never of another name's. -/
+theorem C08_reuse_sees_latest (F : FOps) (hist : List Binding) (n : Nat) (o : Obj)
+    (h : reuseRead F hist n = .ok o) :
+    ∃ ty v, lastSupplied n hist = some (ty, v) ∧ fromGo F .create ty v = .ok o := by
+  unfold reuseRead at h
+  cases hc : convertAll F (held hist) with
+  | error => simp [hc, Outcome.bind] at h
+  | panic => simp [hc, Outcome.bind] at h
+  | ok gs =>
+    have hl := convertAll_lookup F n (held hist) gs hc
+    rw [held_find] at hl
+    simp only [hc, Outcome.bind] at h
+    unfold lastSupplied
+    cases hf : hist.find? (fun b => b.1 == n) with
+    | none => rw [hf] at hl; simp [hl] at h
+    | some b =>
+      rw [hf] at hl
+      obtain ⟨o', h1, h2⟩ := hl
+      simp only [h2, Outcome.ok.injEq] at h
+      subst h
+      exact ⟨b.2.1, b.2.2, rfl, h1⟩
+
+/-- **Partial statement (reused VM).**  For every history of supplies of well-typed values in
+    which the values the VM currently holds satisfy the guard of `C08_partial_roundtrip`
+    (`heldGuards (held hist) = []`; values that were replaced since do not matter), and every
+    name: the run does not panic and either is rejected or reads an object representing the Go
+    value supplied last under that name. -/
+theorem C08_partial_reuse (F : FOps) (hF : ∀ b, F.narrow (F.widen b) = b)
+    (hist : List Binding) (n : Nat)
+    (ht : ∀ b ∈ hist, hasTy b.2.1 b.2.2 = true)
+    (hg : heldGuards (held hist) = []) :
+    specReuse F hist n (reuseRead F hist n) = true := by
+  have hcl := heldGuards_mem (held hist) hg
+  have hnp : convertAll F (held hist) ≠ .panic :=
+    convertAll_no_panic F (held hist) fun b hb =>
+      (C08_partial_no_panic F hF .create b.2.1 b.2.2 (ht b (held_sub hist b hb)) (hcl b hb)).1
+  have hE : specReuse F hist n .error = true := by
+    unfold specReuse; cases lastSupplied n hist <;> simp [specRead]
+  unfold reuseRead
+  cases hc : convertAll F (held hist) with
+  | error => simpa [Outcome.bind] using hE
+  | panic => exact absurd hc hnp
+  | ok gs =>
+    have hl := convertAll_lookup F n (held hist) gs hc
+    simp only [Outcome.bind]
+    cases hf : (held hist).find? (fun b => b.1 == n) with
+    | none => rw [hf] at hl; simpa [hl] using hE
+    | some b =>
+      rw [hf] at hl
+      obtain ⟨o, h1, h2⟩ := hl
+      have hb : b ∈ held hist := List.mem_of_find?_eq_some hf
+      have hrt := C08_partial_roundtrip F hF .create b.2.1 b.2.2 (ht b (held_sub hist b hb)) (hcl b hb)
+      simp only [implRoundTrip, h1, Outcome.map, specRoundTrip, Bool.and_eq_true] at hrt
+      rw [held_find] at hf
+      simp [h2, specReuse, lastSupplied, hf, specRead, hrt.1]
+
+-- the second request's value is seen, not the first's; a replaced unconvertible global no longer
+-- keeps the run from starting, one that is still held does (an error, not a panic)
+example : reuseRead F0 [(0, .int .w0, .int 2), (0, .int .w0, .int 1)] 0 = .ok (.int 2) := by decide
+example : reuseRead F0 [(1, .str, .str [97]), (0, .int .w0, .int 2), (0, .chan, .nilv)] 0 = .ok (.int 2) := by decide
+example : reuseRead F0 [(1, .str, .str [97]), (0, .chan, .nilv)] 1 = .error := by decide
+example : heldGuards (held [(0, .int .w0, .int 2), (0, .named 1 (.int .w64), .int 1)]) = [] := by decide
 
 end Risor.C08
